@@ -5,7 +5,7 @@
    openfile_depth) and the reference's budget (spec_max_links) are the
    constants goextract read from those files on this run. *)
 From Coq Require Import Sorting.Sorted.
-From Apko Require Import Base.Prelude Model.MemFS Spec.FsSpec Proofs.FsProofs Proofs.FsLaws Generated.FsConsts.
+From Apko Require Import Base.Prelude Model.MemFS Spec.FsSpec Proofs.FsProofs Proofs.FsLaws Proofs.FsWf Proofs.FsAgree Generated.FsConsts.
 Open Scope string_scope. Open Scope list_scope.
 
 (* the limits the theorems below are about: both files say the same, and it is
@@ -25,29 +25,37 @@ Proof. exact spec_failure_no_change. Qed.
 Print Assumptions c17_failure_no_change.
 
 (* ---- laws of the reference ------------------------------------------------------------ *)
+(* well-formedness (every inode number held by a directory entry or an open
+   handle exists) holds of the empty filesystem and is preserved by every
+   step, hence of every reachable state *)
+Theorem c17_wf_invariant :
+  wfs init_st /\ (forall s o, wfs s -> wfs (fst (spec_step s o))) /\
+  (forall ops, wfs (fst (spec_run init_st ops))).
+Proof. split; [exact init_wf | split; [exact spec_step_wf | exact reachable_wf]]. Qed.
+Print Assumptions c17_wf_invariant.
+
 (* reads return exactly the bytes last written: a successful Write of p at
    offset o is seen by ReadAt(o, |p|) through any open readable handle on the
    same inode *)
-Theorem c17_read_after_write : forall s i p hd s' r,
-  nth_error (handles s) i = Some hd -> f_app (h_fl hd) = false ->
-  h_ino hd < List.length (heap s) -> p <> [] ->
+Theorem c17_read_after_write : forall s i p hd s' r, wfs s ->
+  nth_error (handles s) i = Some hd -> f_app (h_fl hd) = false -> p <> [] ->
   spec_step s (Write i p) = (s', r) -> is_failure r = false ->
   r = ONum (blen p) /\
   forall j hj, nth_error (handles s') j = Some hj -> h_open hj = true -> readable (h_fl hj) = true ->
     h_ino hj = h_ino hd -> is_dir (heap s') (h_ino hd) = false ->
     spec_step s' (ReadAt j (List.length p) (h_off hd)) = (s', OBytes p).
-Proof. exact read_after_write. Qed.
+Proof. exact read_after_write_wf. Qed.
 Print Assumptions c17_read_after_write.
 
 (* metadata reads return what was last set *)
-Theorem c17_metadata_last_set : forall s p i, s_node (heap s) p = inl i -> i < List.length (heap s) ->
+Theorem c17_metadata_last_set : forall s p i, wfs s -> s_node (heap s) p = inl i ->
   (forall m s', spec_step s (Chmod p m) = (s', OOk) ->
      spec_step s' (Stat p) = (s', info_of (set_perm m (get (heap s) i)))) /\
   (forall u g s', spec_step s (Chown p u g) = (s', OOk) ->
      spec_step s' (Stat p) = (s', info_of (set_owner u g (get (heap s) i)))) /\
   (forall t s', spec_step s (Chtimes p t) = (s', OOk) ->
      spec_step s' (Stat p) = (s', info_of (set_mtime (Some t) (get (heap s) i)))).
-Proof. exact metadata_last_set. Qed.
+Proof. exact metadata_last_set_wf. Qed.
 Print Assumptions c17_metadata_last_set.
 
 (* directory listings are complete, strictly ascending in byte order, hence
@@ -119,6 +127,29 @@ Theorem c17_refines_run : forall b ops s, run_in_E b s ops = true -> model_run b
 Proof. exact refines_run. Qed.
 Print Assumptions c17_refines_run.
 
+(* A syntactic sufficient condition for the lookup-agreement clauses of E, for
+   whole-path lookups: on a filesystem without symbolic links and for a
+   normalised path, getNode and the reference resolution agree (for every
+   nesting limit), up to the recorded non-directory-prefix corner; so Stat,
+   ReadDir, Chmod, Chown, Chtimes are inside the envelope there.
+   PARTIAL: the corresponding statements for the entry-level lookups
+   (filepath.Dir/Base + getNode), openFile and MkdirAll, and for filesystems WITH
+   links (e.g. "no link target contains '..' and nesting stays below the limit")
+   are not proved; there E's agreement clauses are evaluated, not derived. *)
+Theorem c17_lookup_agreement_nolinks_partial : forall b s p,
+  no_links (heap s) -> is_dir (heap s) 0 = true -> clean_path p = true ->
+  (get_node b (heap s) p = s_node (heap s) p \/
+   (get_node b (heap s) p = inr ENotExist /\ s_node (heap s) p = inr EOther)) /\
+  (s_node (heap s) p <> inr EOther ->
+   E b s (Stat p) = true /\ E b s (ReadDir p) = true /\
+   (forall m, E b s (Chmod p m) = true) /\ (forall u g, E b s (Chown p u g) = true) /\
+   (forall t, E b s (Chtimes p t) = true)).
+Proof.
+  intros b s p NL Hr Hc. split; [apply lookup_agree_nolinks; assumption|].
+  intro Hn. apply (node_ops_in_envelope_nolinks b s p NL Hr Hc Hn).
+Qed.
+Print Assumptions c17_lookup_agreement_nolinks_partial.
+
 (* non-vacuity: a sequence with directories, a relative link through a linked
    directory, a hard link, handles, writes around EOF and a listing stays
    inside the envelope on both backends *)
@@ -150,26 +181,35 @@ Theorem c17_remove_nonempty_refuted : forall b,
 Proof. refute. Qed.
 Print Assumptions c17_remove_nonempty_refuted.
 
-Theorem c17_negative_seek_refuted : forall b,
-  leaves b [WriteFile ["f"] [1; 2]%N 420%N; OpenFile ["f"] fl_rdwr 0%N] (Seek 0 (-3)%Z 0) "negative-seek-accepted".
-Proof. refute. Qed.
-Print Assumptions c17_negative_seek_refuted.
+(* ---- repaired by fix commit ba6ef02 (formerly refuted corners) ---------------------------
+   Seek: the code's step is the reference's in EVERY state, for every offset and
+   whence (a negative resulting position is an error and moves nothing). *)
+Theorem c17_seek_is_reference : forall b s i off wh,
+  model_step b s (Seek i off wh) = spec_step s (Seek i off wh).
+Proof. intros b s i off wh. apply refines. reflexivity. Qed.
+Print Assumptions c17_seek_is_reference.
 
-(* ... after which Read and Write crash *)
-Theorem c17_negative_offset_panics_refuted : forall b,
-  leaves b [WriteFile ["f"] [1; 2]%N 420%N; OpenFile ["f"] fl_rdwr 0%N; Seek 0 (-3)%Z 0] (Read 0 1) "negative-offset-panic" /\
-  leaves b [WriteFile ["f"] [1; 2]%N 420%N; OpenFile ["f"] fl_rdwr 0%N; Seek 0 (-3)%Z 0] (Write 0 [7]%N) "negative-offset-panic" /\
-  snd (model_step b (after b [WriteFile ["f"] [1; 2]%N 420%N; OpenFile ["f"] fl_rdwr 0%N; Seek 0 (-3)%Z 0]) (Read 0 1)) = OPanic.
-Proof. intro b. split; [|split]; [revert b; refute | revert b; refute | destruct b; reflexivity]. Qed.
-Print Assumptions c17_negative_offset_panics_refuted.
+(* the former panic replays now stay inside the envelope, fail with an ordinary
+   error and change nothing *)
+Theorem c17_negative_positions_rejected : forall b,
+  let s := after b [WriteFile ["f"] [1; 2]%N 420%N; OpenFile ["f"] fl_rdwr 0%N] in
+  model_step b s (Seek 0 (-3)%Z 0) = (s, OErr EOther) /\
+  model_step b s (Seek 0 (-1)%Z 1) = (s, OErr EOther) /\
+  model_step b s (Seek 0 (-9)%Z 2) = (s, OErr EOther) /\
+  model_step b s (ReadAt 0 2 (-1)%Z) = (s, OErr EOther) /\ E b s (ReadAt 0 2 (-1)%Z) = true /\
+  run_in_E b init_st [WriteFile ["f"] [1; 2]%N 420%N; OpenFile ["f"] fl_rdwr 0%N; Seek 0 (-3)%Z 0; Read 0 1;
+                      Write 0 [7]%N; ReadAt 0 2 (-1)%Z; ReadFile ["f"]] = true.
+Proof. intro b; destruct b; vm_compute; repeat split; reflexivity. Qed.
+Print Assumptions c17_negative_positions_rejected.
 
-Theorem c17_nil_map_panic_refuted : forall b,
-  leaves b [WriteFile ["f"] [1]%N 420%N] (Symlink ["t"] ["f"; "x"]) "nil-children-map-panic" /\
-  snd (model_step b (after b [WriteFile ["f"] [1]%N 420%N]) (Symlink ["t"] ["f"; "x"])) = OPanic /\
-  snd (model_step b (after b [WriteFile ["f"] [1]%N 420%N]) (Mknod ["f"; "x"] 420%N 259%N)) = OPanic /\
-  snd (model_step b (after b [WriteFile ["f"] [1]%N 420%N]) (Link ["f"] ["f"; "x"])) = OPanic.
-Proof. intro b. split; [revert b; refute | destruct b; repeat split; reflexivity]. Qed.
-Print Assumptions c17_nil_map_panic_refuted.
+Theorem c17_entry_under_file_rejected : forall b,
+  let s := after b [WriteFile ["f"] [1]%N 420%N] in
+  model_step b s (Symlink ["t"] ["f"; "x"]) = (s, OErr EOther) /\ E b s (Symlink ["t"] ["f"; "x"]) = true /\
+  model_step b s (Mknod ["f"; "x"] 420%N 259%N) = (s, OErr EOther) /\ E b s (Mknod ["f"; "x"] 420%N 259%N) = true /\
+  model_step b s (Link ["f"] ["f"; "x"]) = (s, OErr EOther) /\ E b s (Link ["f"] ["f"; "x"]) = true /\
+  model_step b s (Mkdir ["f"; "x"] 493%N) = (s, OErr EOther) /\ E b s (Mkdir ["f"; "x"] 493%N) = true.
+Proof. intro b; destruct b; vm_compute; repeat split; reflexivity. Qed.
+Print Assumptions c17_entry_under_file_rejected.
 
 Theorem c17_lstat_follows_refuted : forall b,
   leaves b [WriteFile ["f"] [1]%N 420%N; Symlink ["f"] ["l"]] (Lstat ["l"]) "lstat-follows-symlink".
